@@ -31,6 +31,7 @@ type dcOpt struct {
 	labelSel     *metav1.LabelSelector
 	annSel       *v1alpha1.AnnotationSelector
 	annSelFor    map[string]*v1alpha1.AnnotationSelector // per parent resource: overrides annSel for that rule only
+	ignoreFor    map[string]bool                         // per parent resource: overrides ignoreStatus for that rule only
 	finalize     bool
 	customize    bool
 	ignoreStatus bool
@@ -73,7 +74,11 @@ func (o dcOpt) build() *v1alpha1.DecoratorController {
 		if as, ok := o.annSelFor[pk.Resource]; ok {
 			rule.AnnotationSelector = as
 		}
-		if o.ignoreStatus {
+		ign := o.ignoreStatus
+		if v, ok := o.ignoreFor[pk.Resource]; ok {
+			ign = v
+		}
+		if ign {
 			t := true
 			rule.IgnoreStatusChanges = &t
 		}
